@@ -42,11 +42,11 @@ func (r *router) startServer(cfg *ServerConfig) (func(), error) {
 		}
 		return func() { s.Close() }, nil
 	case "fasthttp":
-		s, err := r.startFastHttpServer(cfg)
+		closer, err := r.startFastHttpServer(cfg)
 		if err != nil {
 			return nil, err
 		}
-		return func() { s.Shutdown() }, nil
+		return closer, nil
 	case "https":
 		s, err := r.startHttpServer(cfg, true)
 		if err != nil {
